@@ -10,25 +10,31 @@ Two models run side by side:
   ancestor, calls addressed to the root, no definition call after `go`, depth ≤ `maxDepth`.
   On those cases both answers must agree; a disagreement prints `M MODEL-MISMATCH` (the harness
   never prints it, so the check flags it).
-Both use the code with patches C16-01 and C16-02. -/
+Both use the code with patches C16-01 and C16-02.
+
+`json [@k]` (after `go`) prints `toJson()` of machine `k` (default: the root) as one canonical line
+`P J …` (`TboxModel/C16/Json.lean`) followed by the snapshot line. -/
 import TboxModel.Util
 import TboxModel.C16.Arena
+import TboxModel.C16.Json
 import TboxModel.C16.Model
 open Tbox.Util Tbox.C16
 
 /-- deepest nesting the tree model is instantiated at by the driver (the theorems hold for all depths) -/
 def maxDepth : Nat := 8
 
-/-- strict decimal: optional '-', 1..9 digits -/
+/-- strict decimal: optional '-', 1..10 digits, value in the range of a C++ `int`
+[-2147483648, 2147483647] (`StateID`/`EventID` are `int`) -/
 def int? (s : String) : Option Int :=
   let cs := s.toList
   let (neg, ds) := match cs with
     | '-' :: r => (true, r)
     | r => (false, r)
-  if ds.isEmpty || ds.length > 9 || !ds.all Char.isDigit then none
+  if ds.isEmpty || ds.length > 10 || !ds.all Char.isDigit then none
   else
     let v : Nat := ds.foldl (fun a c => a * 10 + (c.toNat - 48)) 0
-    some (if neg then - (Int.ofNat v) else Int.ofNat v)
+    let i : Int := if neg then - (Int.ofNat v) else Int.ofNat v
+    if i < -2147483648 || i > 2147483647 then none else some i
 
 def nat? (s : String) : Option Nat := do
   let i ← int? s
@@ -270,7 +276,6 @@ def defCall (s : DS) (k : Nat) (late : Bool) (ws : List String) : Option (DS × 
   match ws with
   | ["st", sid, en, ex] => do
       let sid ← int? sid; let en ← probe? en; let ex ← probe? ex
-      if sid < 0 then none else
       let mt := maxOpt (optScriptMax en) (optScriptMax ex)
       if !okT mt then none else
       let (g', ok) := Def.guarded s.g k (fun r => Build.newState r sid en ex)
@@ -361,6 +366,11 @@ def stepLine (s : DS) (line : String) : DS × List String :=
         | some (ws', tgt) =>
           let k := tgt.getD root
           if k ≥ s.g.length then (s, ["bad-op"]) else
+          match ws' with
+          | ["json"] =>
+            -- `toJson()` is const: same arena, and the snapshot line shows it
+            (s, [s!"B json{if k != root then "-sub" else ""}", "P J " ++ aJson (s.g.length + 1) s.g k, snapLine s.g])
+          | _ =>
           match parseCall ws' with
           | some c => callLine s root k c
           | none => (s, ["bad-op"])
